@@ -145,7 +145,7 @@ DISPLAY_ALL = dict(display=["public", "private", "protected"], proc_internals=Tr
 
 def run_module_case(st: Stats, default, default_pos, ents, context, stratum):
     src = module_source(default, default_pos, ents, context)
-    r = fordrun.build({"src/m.f90": src}, DISPLAY_ALL, stage="correlate")
+    r = fordrun.build_fast({"src/m.f90": src}, DISPLAY_ALL)
     st.evaluations += 1
     st.transitions += 1
     inp = dict(source=src)
@@ -264,7 +264,7 @@ def type_source(mod_default, t_attr, t_stmt, comp_default, bind_default, c_attr,
 def run_type_case(st: Stats, case):
     (_, mod_default, t_attr, t_stmt, comp_default, bind_default, c_attr, b_attr, g_attr) = case
     src = type_source(mod_default, t_attr, t_stmt, comp_default, bind_default, c_attr, b_attr, g_attr)
-    r = fordrun.build({"src/m.f90": src}, DISPLAY_ALL, stage="correlate")
+    r = fordrun.build_fast({"src/m.f90": src}, DISPLAY_ALL)
     st.evaluations += 1
     st.transitions += 1
     inp = dict(source=src)
@@ -332,7 +332,7 @@ def run_submodule_case(st: Stats, case):
     src = ["module pm", parent_default if parent_default != "none" else "", "integer :: pv", "end module pm",
            "submodule (pm) sm", "implicit none"] + spec + (["contains"] + cont if cont else []) + ["end submodule sm"]
     src = "\n".join(l for l in src if l) + "\n"
-    r = fordrun.build({"src/m.f90": src}, DISPLAY_ALL, stage="correlate")
+    r = fordrun.build_fast({"src/m.f90": src}, DISPLAY_ALL)
     st.evaluations += 1
     st.transitions += 1
     inp = dict(source=src)
@@ -391,7 +391,7 @@ def replay(path):
     core.use_repo()
     rec = json.loads(open(path).read())
     src = rec["input"]["source"]
-    r = fordrun.build({"src/m.f90": src}, DISPLAY_ALL, stage="correlate")
+    r = fordrun.build_fast({"src/m.f90": src}, DISPLAY_ALL)
     print(src)
     print("observed previously:", rec["observed"], "expected:", rec["expected"], "features:", rec["features"])
     for m in r.project.modules + r.project.submodules:
